@@ -1,8 +1,14 @@
 package c12
 
 import (
+	"bytes"
+	stdctx "context"
 	"errors"
 	"fmt"
+	"io"
+	"net"
+	"os"
+	"syscall"
 )
 
 // Plan is a fault plan for the output writer.
@@ -14,11 +20,19 @@ import (
 //	           later non-empty Write returns (0, err)
 //	caponce b  like cap, but the writer recovers after the one short write
 //
-// No plan ever returns n < len(p) with a nil error (that would break the
-// io.Writer contract; the property says nothing about such writers).
+// Err names the error VALUE the failing calls return (errIDs; "" = the
+// private sentinel ErrInjected). N says how much the failing call of a
+// dead/once plan accepts: "" nothing, "half" len(p)/2, "full" all of p (an
+// error together with n == len(p) is allowed by io.Writer).
+//
+// No judged plan returns n < len(p) with a nil error: that breaks the
+// io.Writer contract and whether the property speaks about such writers is
+// open; kind "shortnil" does it for the record only (never judged).
 type Plan struct {
 	Kind string `json:"kind"`
 	K    int    `json:"k"`
+	Err  string `json:"err,omitempty"`
+	N    string `json:"n,omitempty"`
 	// SW: the writer also has a WriteString method (like bytes.Buffer or
 	// bufio.Writer), so io.WriteString hands it strings directly; otherwise it
 	// is a plain struct with Write only. A WriteString call counts as a write
@@ -27,11 +41,83 @@ type Plan struct {
 }
 
 func (p Plan) String() string {
-	if p.SW {
-		return fmt.Sprintf("%s:%d/sw", p.Kind, p.K)
+	s := fmt.Sprintf("%s:%d", p.Kind, p.K)
+	if p.N != "" {
+		s += "/n=" + p.N
 	}
-	return fmt.Sprintf("%s:%d", p.Kind, p.K)
+	if p.Err != "" {
+		s += "/err=" + p.Err
+	}
+	if p.SW {
+		s += "/sw"
+	}
+	return s
 }
+
+// base is the plan with the default error value and count.
+func (p Plan) base() Plan { return Plan{Kind: p.Kind, K: p.K, SW: p.SW} }
+
+// timeoutErr is a net.Error that is a timeout and temporary.
+type timeoutErr struct{}
+
+func (timeoutErr) Error() string   { return "i/o timeout" }
+func (timeoutErr) Timeout() bool   { return true }
+func (timeoutErr) Temporary() bool { return true }
+
+// emptyErr is an error whose text is empty.
+type emptyErr struct{}
+
+func (emptyErr) Error() string { return "" }
+
+// ptrErr is an error implemented on a pointer to a struct.
+type ptrErr struct{ code int }
+
+func (e *ptrErr) Error() string { return fmt.Sprintf("device error %d", e.code) }
+
+// errID is one identity of the writer's error. The property quantifies over
+// ANY failing write, so the value of the error is a dimension of the fault:
+// the values that wrappers and retry loops like to special-case are here.
+type errID struct {
+	Name string
+	Err  error
+}
+
+var _ net.Error = timeoutErr{}
+
+var errIDs = []errID{
+	{"io.ErrShortWrite", io.ErrShortWrite},
+	{"io.EOF", io.EOF},
+	{"io.ErrUnexpectedEOF", io.ErrUnexpectedEOF},
+	{"io.ErrClosedPipe", io.ErrClosedPipe},
+	{"io.ErrNoProgress", io.ErrNoProgress},
+	{"context.Canceled", stdctx.Canceled},
+	{"context.DeadlineExceeded", stdctx.DeadlineExceeded},
+	{"os.ErrDeadlineExceeded", os.ErrDeadlineExceeded},
+	{"os.ErrClosed", os.ErrClosed},
+	{"net-timeout-temporary", timeoutErr{}},
+	{"net.OpError-EAGAIN", &net.OpError{Op: "write", Net: "tcp", Err: syscall.EAGAIN}},
+	{"syscall.EAGAIN", syscall.EAGAIN},
+	{"syscall.EINTR", syscall.EINTR},
+	{"syscall.EPIPE", syscall.EPIPE},
+	{"syscall.ECONNRESET", syscall.ECONNRESET},
+	{"os.PathError-ENOSPC", &os.PathError{Op: "write", Path: "/dev/full", Err: syscall.ENOSPC}},
+	{"wrapped-io.ErrShortWrite", fmt.Errorf("quota: %w", io.ErrShortWrite)},
+	{"wrapped-io.EOF", fmt.Errorf("conn: %w", io.EOF)},
+	{"bytes.ErrTooLarge", bytes.ErrTooLarge},
+	{"empty-text", emptyErr{}},
+	{"errors.New-empty", errors.New("")},
+	{"pointer-receiver", &ptrErr{5}},
+}
+
+var errByName = func() map[string]error {
+	m := map[string]error{"": ErrInjected}
+	for _, e := range errIDs {
+		m[e.Name] = e.Err
+	}
+	return m
+}()
+
+var nModes = []string{"", "half", "full"}
 
 // swFault / swRec add a WriteString method to the writers.
 type swFault struct{ *faultWriter }
@@ -55,10 +141,15 @@ type faultWriter struct {
 	afterBad int // Write calls made after the first failed call
 	fails    int // calls that returned an error
 	tripped  bool
+	err      error // the error value the failing calls return
 }
 
 func newFaultWriter(p Plan, sizeHint int) *faultWriter {
-	return &faultWriter{plan: p, firstBad: -1, accepted: make([]byte, 0, sizeHint)}
+	e, ok := errByName[p.Err]
+	if !ok {
+		panic("unknown error identity " + p.Err)
+	}
+	return &faultWriter{plan: p, firstBad: -1, accepted: make([]byte, 0, sizeHint), err: e}
 }
 
 func (w *faultWriter) fail(n int) (int, error) {
@@ -67,7 +158,21 @@ func (w *faultWriter) fail(n int) (int, error) {
 		w.atFail = len(w.accepted)
 	}
 	w.fails++
-	return n, ErrInjected
+	return n, w.err
+}
+
+// failCall is the failing call of a dead/once plan: it accepts nothing, half
+// or all of p (plan.N) and returns the error.
+func (w *faultWriter) failCall(p []byte) (int, error) {
+	n := 0
+	switch w.plan.N {
+	case "half":
+		n = len(p) / 2
+	case "full":
+		n = len(p)
+	}
+	w.accepted = append(w.accepted, p[:n]...)
+	return w.fail(n)
 }
 
 func (w *faultWriter) Write(p []byte) (int, error) {
@@ -79,11 +184,11 @@ func (w *faultWriter) Write(p []byte) (int, error) {
 	switch w.plan.Kind {
 	case "dead":
 		if idx >= w.plan.K {
-			return w.fail(0)
+			return w.failCall(p)
 		}
 	case "once":
 		if idx == w.plan.K {
-			return w.fail(0)
+			return w.failCall(p)
 		}
 	case "cap":
 		room := w.plan.K - len(w.accepted)
@@ -94,6 +199,16 @@ func (w *faultWriter) Write(p []byte) (int, error) {
 				room = 0
 			}
 			return w.fail(room)
+		}
+	case "shortnil":
+		// contract-breaking writer, for the record only: short count, nil error
+		room := w.plan.K - len(w.accepted)
+		if len(p) > room {
+			if room < 0 {
+				room = 0
+			}
+			w.accepted = append(w.accepted, p[:room]...)
+			return room, nil
 		}
 	case "caponce":
 		if !w.tripped {
